@@ -30,6 +30,12 @@ static inline int nondet_int(void) { return (int) 0xdeadbeefU; }
 static inline unsigned char nondet_uchar(void) { return 0xa5; }
 static inline _Bool nondet_bool(void) { return 1; }
 static inline void *nondet_ptr(void) { return (void *) 0xdeadbeefcafe0000UL; }
+/* contract clauses are verifier-only text */
+#define __CPROVER_requires(...)
+#define __CPROVER_ensures(...)
+#define __CPROVER_assigns(...)
+#define __CPROVER_loop_invariant(...)
+#define __CPROVER_decreases(...)
 #else
 unsigned long nondet_ulong(void);
 long nondet_long(void);
